@@ -204,7 +204,7 @@ def _polyfile_case(args):
     pool = [
         dict(axes=("area_um", "deform"),
              points=[[0.1, 0.2], [3.3, 0.1], [2.7, 3.9], [0.4, 2.2]],
-             name="gate 1", inverted=False, unique_id=3),
+             name="gate 1 (a=b)", inverted=False, unique_id=3),
         dict(axes=("deform", "area_um"),
              points=[[0, 0], [3, 3], [3, 0], [0, 3]],
              name="bow tie (µ)", inverted=True, unique_id=17),
